@@ -698,7 +698,10 @@ where
     }
 
     pub(crate) async fn finish_inner(&mut self) -> LdapResult {
-        if self.state != StreamState::Done {
+        // Only a stream which is still being read owns its message ID: after the final
+        // result, a timeout (which scrubs the ID itself) or another error, the ID may
+        // already belong to a different operation.
+        if self.state == StreamState::Active {
             let last_id = self.ldap.last_id;
             if let Err(e) = self.ldap.id_scrub_tx.send(last_id) {
                 warn!(
